@@ -51,9 +51,9 @@ Proof.
   destruct (negb ok); cbn [fst]; apply papi_one; exact H.
 Qed.
 
-Lemma follow_papi : forall fuel s o, papi s (fst (follow fuel s o)).
+Lemma follow_papi : forall fuel s o lk, papi s (fst (follow fuel s o lk)).
 Proof.
-  induction fuel as [|f IH]; intros s o; cbn [follow]; destruct (hget s o) as [ob|]; try apply papi_refl;
+  induction fuel as [|f IH]; intros s o lk; cbn [follow]; destruct (hget s o) as [ob|]; try apply papi_refl;
     destruct (r_ref (o_rec ob)) as [t|]; try apply papi_refl.
   generalize (PGet s t). destruct (cache_get s t) as [s1 [[o'|]|]]; cbn [fst]; intro H;
     try (apply papi_one; exact H).
@@ -204,11 +204,11 @@ Proof.
              then let '(s0, ok) := cache_delete s k in (s0, if ok then Err EExpiredID else Err EDeleteExpired, cks)
              else (s, Ok tt, cks)) as [[s1 stp] cks1].
     cbn [fst] in H1. destruct stp as [x|e|e]; cbn [fst]; try exact H1.
-    assert (H2 : papi s1 (fst (if isr then follow (S (N.to_nat (supply s1))) s1 o else (s1, Ok o)))).
+    assert (H2 : papi s1 (fst (if isr then follow (S (N.to_nat (supply s1))) s1 o k else (s1, Ok (o, k))))).
     { destruct isr; [apply follow_papi | apply papi_refl]. }
-    destruct (if isr then follow (S (N.to_nat (supply s1))) s1 o else (s1, Ok o)) as [s2 fr].
+    destruct (if isr then follow (S (N.to_nat (supply s1))) s1 o k else (s1, Ok (o, k))) as [s2 fr].
     cbn [fst] in H2. assert (H12 : papi s s2) by (eapply papi_trans; eassumption).
-    destruct fr as [o'|e|e]; cbn [fst]; try exact H12.
+    destruct fr as [[o' lk']|e|e]; cbn [fst]; try exact H12.
     eapply papi_trans; [exact H12 | apply hupd_papi].
 Qed.
 
